@@ -77,7 +77,8 @@ def gen(data: bytes):
         m = S.gen_model(tp, "SCRG", nmax=9, nmin=3, kmax=3, p_role=130,
                         p_change=220)
         name = "reaction-changes"
-    return {"fam": name, "a": S.shuffled_recipe(tp, m)}
+    return {"fam": name, "a": S.shuffled_recipe(tp, m),
+            "warm": tp.pick([0, 0, 1, 2, 3])}
 
 
 def shrink(case):
@@ -94,6 +95,9 @@ def check_case(ctx, case):
         raise HarnessError("C06: fully specified parities")
     g = rc.build(case["a"])
     s0 = snapshot(g, f"C06/{cls}/source")
+    from vp import ops as O
+    with guard(f"C06/{cls}/read-only-use-before"):
+        O.pre_use(g, case.get("warm", 0))
     with guard(f"C06/{cls}/enantiomer"):
         e = g.enantiomer()
     if e is g:
